@@ -297,9 +297,12 @@ pub fn for_property(prop: &str, tier: Tier) -> Vec<(SysCfg, RunOpts)> {
             s.triples(&a, &[2, 3], &menu3, &[Final::Seq], &bounded(b3));
         }
         "C18" => {
-            let m = menu(&["N,N", "DN", "C2,N", "DC2", "B2x2", "DB2", "FE1", "FE2", "EF2", "FO2", "I,DB3", "L,N", "S", "N,S,N"]);
+            let mut m = menu(&["N,N", "DN", "C2,N", "DC2", "B2x2", "DB2", "FE1", "FE2", "EF2", "FO2", "I,DB3", "L,N", "S", "N,S,N"]);
+            if !q {
+                m.extend(menu(&["C3:1,N", "B3x1:1,DN", "FE3", "EF1", "V,W", "B2x2:1f", "FO1", "DC3"]));
+            }
             for &kind in &all {
-                for len in 1..=3usize {
+                for len in 1..=(if q { 3usize } else { 4usize }) {
                     for a in &m {
                         for b in &m {
                             let mut faults: Vec<Fault> = vec![];
@@ -336,6 +339,13 @@ pub fn for_property(prop: &str, tier: Tier) -> Vec<(SysCfg, RunOpts)> {
                 for k in 0..=2u32 {
                     for pl in [["N,N", "N,N", "N"], ["C2,N", "N,N", "B2x1"], ["DN", "N", "C2"]] {
                         s.add(SysCfg { kind, len: 2, plans: pl.iter().map(|x| p(x)).collect(), fin: Final::Drop, fault: Fault::Next(k) }, bounded(b3));
+                    }
+                    if !q {
+                        for pl in [["DB2", "DN", "S"], ["FE2", "N,N", "C2"], ["DC2", "DC2", "DN"], ["B2x2:1", "I,I", "L,N"]] {
+                            for len in [2usize, 3] {
+                                s.add(SysCfg { kind, len, plans: pl.iter().map(|x| p(x)).collect(), fin: Final::Drop, fault: Fault::Next(k) }, bounded(b3));
+                            }
+                        }
                     }
                 }
             }
